@@ -1,6 +1,11 @@
 package main
 
-// Generator for region.go (DESIGN.md 4.1a, third part): Gts/Gen/Region.lean.
+// Generators for region.go (DESIGN.md 4.1a, third part).  Three generated modules, so that a
+// refusal in one area only stops the theorems that depend on that area:
+//
+//	Gts/Gen/RegionSeg.lean     utils.go Abs, Segment.Len / Head / Tail / Complement        (C08, C09)
+//	Gts/Gen/Region.lean        BySegment.Less, invertSegments, the merge loop of Minimize  (C09, C15)
+//	Gts/Gen/RegionResize.lean  Regions.Len, the bounds and the walk of Regions.Resize       (C08)
 //
 // What is translated, and how it is read:
 //
@@ -664,26 +669,18 @@ func recvName(fd *ast.FuncDecl, what string) string {
 	return n
 }
 
-func genRegion(repo string) (text string, err error) {
-	defer func() {
-		if r := recover(); r != nil {
-			if rf, ok := r.(refusal); ok {
-				err = fmt.Errorf("%s", rf.msg)
-				return
-			}
-			panic(r)
-		}
-	}()
+// regionSource: the two parsed files and a generator with the functions calls may refer to
+func regionSource(repo string) (g *rgen, utils, af *ast.File, err error) {
 	fset := token.NewFileSet()
-	utils, perr := parser.ParseFile(fset, filepath.Join(repo, "utils.go"), nil, 0)
-	if perr != nil {
-		return "", perr
+	utils, err = parser.ParseFile(fset, filepath.Join(repo, "utils.go"), nil, 0)
+	if err != nil {
+		return
 	}
-	af, perr := parser.ParseFile(fset, filepath.Join(repo, "region.go"), nil, 0)
-	if perr != nil {
-		return "", perr
+	af, err = parser.ParseFile(fset, filepath.Join(repo, "region.go"), nil, 0)
+	if err != nil {
+		return
 	}
-	g := &rgen{fns: map[string]arithFn{}}
+	g = &rgen{fns: map[string]arithFn{}}
 	for _, f := range arithFns {
 		if f.group() == "" {
 			g.fns[f.recv+"."+f.name] = f
@@ -692,16 +689,41 @@ func genRegion(repo string) (text string, err error) {
 	for _, f := range regionFns {
 		g.fns[f.recv+"."+f.name] = f
 	}
-	g.out.WriteString("/-\n  GENERATED by go2lean (region.go) from region.go and utils.go — do not edit.\n")
-	g.out.WriteString("  Segment methods, BySegment.Less, invertSegments, the merge loop of Minimize and the bounds /\n  walk of Regions.Resize; loops are recursive helpers over the loop state (see go2lean/region.go).\n-/\n")
-	g.out.WriteString("import Gts.Gen.Arith\nimport Gts.Model.Region\nnamespace Gts.Gen\nset_option linter.unusedVariables false\n\n")
+	return
+}
 
-	// ---- declarations the reading depends on ---------------------------------------------------
-	for _, t := range [][2]string{{"Segment", "[2]int"}, {"Regions", "[]Region"}, {"BySegment", "[]Segment"}} {
+func (g *rgen) header(what, imports string) {
+	g.out.WriteString("/-\n  GENERATED by go2lean (region.go) from region.go and utils.go — do not edit.\n  " + what + "\n  (how the Go is read: the header comment of go2lean/region.go)\n-/\n")
+	g.out.WriteString(imports + "namespace Gts.Gen\nset_option linter.unusedVariables false\n\n")
+}
+
+func wantTypes(af *ast.File, decls ...[2]string) {
+	for _, t := range decls {
 		if got := typeDeclText(af, t[0]); got != t[1] {
 			refuse("region.go: type %s is %q, expected %s", t[0], got, t[1])
 		}
 	}
+}
+
+func recoverRefusal(err *error) {
+	if r := recover(); r != nil {
+		if rf, ok := r.(refusal); ok {
+			*err = fmt.Errorf("%s", rf.msg)
+			return
+		}
+		panic(r)
+	}
+}
+
+// genRegionSeg: Gts/Gen/RegionSeg.lean — `Abs` and the `Segment` methods (obligations of C08 and C09)
+func genRegionSeg(repo string) (text string, err error) {
+	defer recoverRefusal(&err)
+	g, utils, af, perr := regionSource(repo)
+	if perr != nil {
+		return "", perr
+	}
+	g.header("`utils.go Abs` and the methods `Len`, `Head`, `Tail`, `Complement` of `Segment`.", "")
+	wantTypes(af, [2]string{"Segment", "[2]int"})
 	unpack := findFunc(utils, "Unpack")
 	if unpack == nil || len(unpack.Body.List) != 1 || len(unpack.Type.Params.List) != 1 || len(unpack.Type.Params.List[0].Names) != 1 {
 		refuse("utils.go: Unpack")
@@ -773,6 +795,20 @@ func genRegion(repo string) (text string, err error) {
 		g.def(m.lean, what, bs, e, fd.Body.List, nil, m.rt)
 	}
 
+	g.out.WriteString("end Gts.Gen\n")
+	return g.out.String(), nil
+}
+
+// genRegion: Gts/Gen/Region.lean — `BySegment.Less`, `invertSegments`, the merge loop of `Minimize`
+// (obligations of C09 and C15)
+func genRegion(repo string) (text string, err error) {
+	defer recoverRefusal(&err)
+	g, _, af, perr := regionSource(repo)
+	if perr != nil {
+		return "", perr
+	}
+	g.header("`BySegment.Less`, `invertSegments` and the merge loop of `Minimize`; loops are recursive helpers over\n  the loop state.", "import Gts.Gen.Arith\n")
+	wantTypes(af, [2]string{"Segment", "[2]int"}, [2]string{"BySegment", "[]Segment"})
 	// ---- BySegment.Less ------------------------------------------------------------------------
 	{
 		fd := findMethod(af, "BySegment", "Less")
@@ -804,24 +840,6 @@ func genRegion(repo string) (text string, err error) {
 			bs, e, fd.Body.List[1:], nil, "Bool")
 	}
 
-	// ---- Regions.Len ---------------------------------------------------------------------------
-	{
-		fd := findMethod(af, "Regions", "Len")
-		if fd == nil {
-			refuse("region.go: Regions.Len not found")
-		}
-		normalise(fd)
-		what := "region.go `Regions.Len`"
-		wantResults(fd, what, "int")
-		singleIntParam(fd, 0)
-		rn := recvName(fd, what)
-		e := g.newEnv()
-		e.results = []string{"int"}
-		e.declare(rn, val{typ: "lens", expr: rn})
-		g.def("regionsLen", what+" on the list of the lengths of the elements (`r.Len()` on the interface Region is the element)",
-			[]string{"(" + rn + " : List Int)"}, e, fd.Body.List, nil, "Int")
-	}
-
 	// ---- invertSegments ------------------------------------------------------------------------
 	{
 		fd := findFunc(af, "invertSegments")
@@ -847,8 +865,39 @@ func genRegion(repo string) (text string, err error) {
 	}
 
 	g.minimize(af)
-	g.resize(af)
+	g.out.WriteString("end Gts.Gen\n")
+	return g.out.String(), nil
+}
 
+// genRegionResize: Gts/Gen/RegionResize.lean — `Regions.Len`, the bounds and the walk of
+// `Regions.Resize` (obligations of C08)
+func genRegionResize(repo string) (text string, err error) {
+	defer recoverRefusal(&err)
+	g, _, af, perr := regionSource(repo)
+	if perr != nil {
+		return "", perr
+	}
+	g.header("`Regions.Len` and `Regions.Resize`: the bounds per modifier kind, the walk over the elements, the\n  final switch as recognised facts.", "import Gts.Model.Region\n")
+	wantTypes(af, [2]string{"Regions", "[]Region"})
+	// ---- Regions.Len ---------------------------------------------------------------------------
+	{
+		fd := findMethod(af, "Regions", "Len")
+		if fd == nil {
+			refuse("region.go: Regions.Len not found")
+		}
+		normalise(fd)
+		what := "region.go `Regions.Len`"
+		wantResults(fd, what, "int")
+		singleIntParam(fd, 0)
+		rn := recvName(fd, what)
+		e := g.newEnv()
+		e.results = []string{"int"}
+		e.declare(rn, val{typ: "lens", expr: rn})
+		g.def("regionsLen", what+" on the list of the lengths of the elements (`r.Len()` on the interface Region is the element)",
+			[]string{"(" + rn + " : List Int)"}, e, fd.Body.List, nil, "Int")
+	}
+
+	g.resize(af)
 	g.out.WriteString("end Gts.Gen\n")
 	return g.out.String(), nil
 }
